@@ -216,6 +216,9 @@ class Program(object):
 
             param = command.inputs[argument.name]
 
+            if isinstance(value, Command):
+                # Arguments built through the API may hold the referenced command itself
+                return str(value.result_name)
             if isinstance(param, ResultParameter) or (
                 isinstance(param, ListParameter)
                 and isinstance(param.value_type, ResultParameter)
